@@ -9,11 +9,11 @@ import wgslgen as W
 ID = "C02"
 TABLES = ["buffer_binding", "storage_access"]      # leaf tables compared exhaustively through the hooks (coq/Check/Tables.v)
 VALIDATE_MIX = True
-REQUIRES = ["Agree", "C02Spec", "C02Proof"]
+REQUIRES = ["C02Features", "Agree", "C02Spec", "C02Proof"]
 THEOREM_REQUIRES = ["C02"]
-THEOREMS = ["C02_holds_bool", "C02_compatible", "C02_refuted_ms_float", "C02_refuted_int_gather"]
+THEOREMS = ["C02_holds_bool", "C02_compatible", "C02_no_spurious_feature", "C02_refuted_ms_float", "C02_refuted_int_gather"]
 PROOF_FILES = ["Proofs/GenInv.v", "Proofs/Traversal.v", "Proofs/StageMap.v", "Proofs/C11Proof.v", "Proofs/C11Link.v",
-               "Proofs/C03Link.v", "Proofs/C02Proof.v", "Properties/C02.v"]
+               "Proofs/C03Link.v", "Proofs/C02Proof.v", "Proofs/C02FeaturesProof.v", "Properties/C02.v"]
 RULE = ("validated modules declaring 1..10 resources over every WGSL resource type (uniform / storage read / read_write "
         "buffers of struct, array, runtime array, scalar, vector, matrix, atomics; sampled textures 1d/2d/2d_array/3d/cube/"
         "cube_array x f32/i32/u32; depth textures incl. multisampled; multisampled textures; storage textures over all 41 "
@@ -91,9 +91,9 @@ def verdict_expr(c, r, ir, real):
     return ('[wf %s && wf_resources %s && uses_sound %s %s && wf_sampling %s %s; '
             'agree_res agree_C03 (gen %s ""%%string None %s) %s '
             '&& on_out %s (fun o => Bool.eqb (C02_stage_ok %s o %s %s) %s && Bool.eqb (C02_bgl_ok o) %s); '
-            '%s; kf_ms_float %s; kf_int_sampling %s %s]'
+            '%s && on_out %s (fun o => C02_features_ok %s o); kf_ms_float %s; kf_int_sampling %s %s]'
             % (ir, ir, ir, uses, ir, samp, ir, o, real, real, ir, uses, samp, "true" if stage else "false",
-               "true" if bgl else "false", "true" if (stage and bgl) else "false", ir, ir, samp))
+               "true" if bgl else "false", "true" if (stage and bgl) else "false", real, ir, ir, ir, samp))
 
 
 def nontrivial(c, r):
